@@ -330,7 +330,12 @@ impl ReactCache
         mut cache       : ResMut<ReactCache>,
         mut commands    : Commands,
         entity_reactors : Query<&EntityReactors>,
+        inserted        : Query<(), With<React<C>>>,
     ){
+        // The insertion is a `try_insert`: if the entity was despawned before it was applied then nothing was
+        // inserted and there is nothing to react to.
+        if !inserted.contains(entity) { return; }
+
         let rtype = EntityReactionType::Insertion(TypeId::of::<C>());
 
         // entity-specific reactors
